@@ -71,14 +71,23 @@ def resolve_all(t, asg):
 
 
 def cases_of(ret):
-    """[(assignment over atomic conditions, resolved return)]"""
+    """[(assignment over atomic conditions, resolved return)]; atoms = conditions of every ifexp plus the atoms of
+    the flag component of every resolved (flag, remainder) leaf."""
     atoms = []
     for x in subterms(ret):
         if x[0] == "ifexp":
             bool_atoms(x[1], atoms)
-    it = items(ret) if ret[0] == "tuple" else None
-    if it:
-        bool_atoms(it[0], atoms)
+    for _ in range(3):
+        grew = False
+        for bits in itertools.product([True, False], repeat=len(atoms)):
+            r = resolve_all(ret, dict(zip(atoms, bits)))
+            it = items(r) if r[0] == "tuple" else None
+            if it:
+                before = len(atoms)
+                bool_atoms(it[0], atoms)
+                grew = grew or len(atoms) > before
+        if not grew:
+            break
     atoms = [a for a in atoms if a[0] not in ("tuple",)]
     if len(atoms) > 7:
         raise AnalysisError("too many atomic conditions")
@@ -394,6 +403,19 @@ def fn_filter_partition(ctx, rule="PATH-filter-partition"):
                 if covers(st.body) and covers(st.orelse):
                     return True
         return False
+    # the recursive split's two results are stored in the matching parts
+    for st in ast.walk(loop):
+        if isinstance(st, ast.Assign) and isinstance(st.value, ast.Call) and ast.unparse(st.value.func) == "self.filter" \
+                and isinstance(st.targets[0], ast.Tuple) and len(st.targets[0].elts) == 2:
+            a, b = (ast.unparse(e) for e in st.targets[0].elts)
+            stores = {ast.unparse(x.targets[0].value): ast.unparse(x.value) for x in ast.walk(loop)
+                      if isinstance(x, ast.Assign) and isinstance(x.targets[0], ast.Subscript) and isinstance(x.value, ast.Name)
+                      and ast.unparse(x.value) in (a, b)}
+            if stores.get("selected") != a or stores.get("unselected") != b:
+                ctx.bad(rule, construct, "recursive split stored in both parts",
+                        f"self.filter(...) returns ({a}, {b}) but the stores are {stores}: a sub-map's {'unselected' if stores.get('unselected') != b else 'selected'} "
+                        "remainder is lost or misplaced", ctx.loc(mod, st))
+                failed = True
     if not covers(loop.body):
         ctx.bad(rule, construct, "every item reaches exactly one part", "some path through the loop body stores the item in neither part", ctx.loc(mod, loop))
         failed = True
